@@ -325,7 +325,7 @@ func buildAttacks(r *spec.Rand, n int) []attack {
 	// subscriptions while further connections with the same identifier come (resuming the session) and
 	// are cut: set-up and teardown of those walk the session's filter list while the live connection
 	// changes it
-	for i := 0; i < 2; i++ {
+	for i := 0; i < 8; i++ {
 		add("disc/same-id-churn", "connections resuming a session of 2000 filters are cut while the live connection of that client subscribes and unsubscribes", func(b *brokerProc, r *spec.Rand) map[string]interface{} {
 			id := uniqueCID("dev")
 			live, err := b.connect(id, connectOpts{ClientID: id, Clean: false, KeepAlive: 600})
@@ -381,6 +381,8 @@ func buildAttacks(r *spec.Rand, n int) []attack {
 			}
 			close(stop)
 			<-done
+			out.Count("c05.same_id_churn_attacks", 1)
+			out.Count("c05.same_id_connections_cut", int64(cuts))
 			return map[string]interface{}{"same_id_connections_cut": cuts}
 		})
 	}
